@@ -21,6 +21,7 @@ def execOp (g : Unit → List CPt × List CPt) (op : String) (args : List String
   | "rnew" => opRnew (gensOf (g ())) false args
   | "rprove" => opRnew (gensOf (g ())) true args
   | "rmprove" => opRmprove (gensOf (g ())) args
+  | "rseq" => "emit:"          -- implementation-only: proofs built and verified in one process, emitted for both verifiers
   | "gens" => opGens (gensOf (g ())) args
   | "verify" =>
     match args with
